@@ -264,6 +264,16 @@ func (fr *Frame) nativeCallVals(st *State, fn *ssa.Function, args []Val, sig *ty
 		e := r.freshOf(st, "fperr", errT)
 		r.assumeGlobal(not(eq(app("i_tag", e.S), "0")))
 		return Tuple{TV{"(mk_iface 0 0)", SIface, sig.Results().At(0).Type()}, e}, true
+	case "math.Min", "math.Max":
+		used()
+		a, b := fr.tvOf(st, args[0], nil), fr.tvOf(st, args[1], nil)
+		if a.Sort == SReal && b.Sort == SReal {
+			op := "<="
+			if name == "math.Max" {
+				op = ">="
+			}
+			return TV{ite(app(op, a.S, b.S), a.S, b.S), SReal, sig.Results().At(0).Type()}, true
+		}
 	case "math/rand.Intn", "math/rand/v2.IntN":
 		used()
 		n := fr.tvOf(st, args[0], nil)
